@@ -1026,6 +1026,21 @@ func (r *W3Run) truthOracle(prop string, partial bool) {
 	if d0 == nil {
 		return
 	}
+	// whatever happened to the membership, an item is only ever stored in the partition
+	// that owns its id
+	if len(d0.ids) == info.p {
+		for pid, reps := range dumps {
+			for _, d := range reps {
+				for _, v := range d.Vertices {
+					if want := d0.ids[ownerOf(v.Id, info.p)]; want != pid {
+						r.out.Violate(prop, "id-stored-in-a-partition-that-does-not-own-it", "id %s is stored in partition %s; by ((lo64 mod n)+(hi64 mod n)) mod n with n=%d it belongs to partition #%d = %s", v.Id, shortG(pid), info.p, ownerOf(v.Id, info.p), shortG(want))
+						return
+					}
+					r.out.Stat("owners_checked_with_independent_arithmetic", 1)
+				}
+			}
+		}
+	}
 	// per id: the last acknowledged successful write, if no later write on that id is in doubt
 	type last struct {
 		kind string
